@@ -244,7 +244,7 @@ U_TAGS = Unit(P + '/Geo_Container.compute_tags', ['Geo_Container.compute_tags'],
 
 # ================================================================ register_source
 INLINE_REG = ('Pulse_Container.__len__', 'Pulse_Container.__getitem__', 'Excitation.register',
-              '_Load.add_pulse')
+              '_Load.add_pulse', 'Geo_Container.__len__', 'Geo_Container.__getitem__')
 
 
 def mk_model(eng):
@@ -385,8 +385,13 @@ def t_register_load(eng):
         inner = eng_.prefix_value(l, P + '.register_load.all.inner.load.pulses', [geobj.ident], ps.length())
         return [(r_cmp('>', ps.length(), 0), {('attr', load, 'pulses'): inner}),
                 (r_cmp('==', ps.length(), 0), {('attr', load, 'pulses'): l})]
+    cur_obj = {}
+
+    def outer_assume(eng_, i, geobj):
+        cur_obj['geobj'] = geobj          # the outer loop's element, whatever the code calls it
+        return True
     eng.loop_specs[(Q, 0)] = LoopSpec([('attr', load, 'pulses')], outer_step,
-                                      P + '.register_load.all', [m.ident])
+                                      P + '.register_load.all', [m.ident], assume=outer_assume)
     eng.loop_specs[(Q, 1)] = None     # set per outer iteration below
 
     class _Inner(dict):
@@ -395,7 +400,7 @@ def t_register_load(eng):
     eng.loop_specs[(Q, 1)] = LoopSpec([('attr', load, 'pulses')],
                                       lambda e, b, p, i: {('attr', load, 'pulses'): _app(b[('attr', load, 'pulses')], p)},
                                       P + '.register_load.all.inner', [])
-    eng.loop_specs[(Q, 1)].key_fn = lambda e, env: [env['geobj'].ident]
+    eng.loop_specs[(Q, 1)].key_fn = lambda e, env: [cur_obj['geobj'].ident]
     if form == 0:
         bad = z3.Or(term(pulse) < 0, term(pulse) >= term(N))
     elif form == 1:
